@@ -10,6 +10,32 @@ CHECKS = {
    "TLC exhaustively checks the code-shaped decimal machine (exponent choice, hide rule, carry, digit count) against the denotation oracle on a boundary-dense grid, and every explored input is replayed into the real function whose output string is parsed independently; plus a seeded dense float sweep with the same oracle in exact fractions.",
    "Exact rounding ties are skipped; IEEE conversion of decimals is not modelled; grid bounded as listed in the evidence."),
 }
+CHECKS.update({
+ "C01": ("Sweep.tla", "DESIGN.md §3",
+   "TLA+ model of combo_runner_core (enumerate/shuffle/submit/complete/collect/unshuffle/place) checked by TLC; every emitted behaviour (permutation, completion order) replayed into combo_runner with scripted executors",
+   "TLC checks ExactlyOnce / OnlyRequestedOnce / Placement / FlatOrder over all grid shapes with N<=6 (every permutation and every submit/complete/collect interleaving for N<=3, N=4 for selected shapes), simulates grids up to 5 arguments x 4 values, and every terminal behaviour is forced onto the real combo_runner (patched random.shuffle, scripted submit/apply_async/multiprocessing.Pool executors) whose call log and nested/flat/split output are compared position by position.",
+   "Bounds as listed in the evidence; real pools/RNG are not forced (trace validation only); result tokens are realised as scalar/tuple/array by the harness."),
+ "C02": ("Sweep.tla", "DESIGN.md §3",
+   "same TLA+ model with case lists: Missing slots, sorted union axes, overlap rejection; behaviours replayed into combo_runner(cases=)/case_runner with every placeholder kind",
+   "TLC checks Placement (with Missing), UnionAxes, RejectBeforeRun, ExactlyOnce on all ordered sets of <=3 distinct cases over 1-2 arguments with optional sub-grids (3-4 case arguments by simulation); each behaviour is replayed into the real code with number/str/bool/tuple/array/nested-list results and the placeholder's value and shape are compared at every un-requested position.",
+   "Case sets are bounded; Dataset-valued results are exercised under C03."),
+ "C03": ("Sweep.tla", "DESIGN.md §3",
+   "same TLA+ model with Dataset/DataFrame placement and the constants/resources/attrs rule; replay through combo_runner_to_ds/_df, case_runner_to_ds/_df, Runner, label",
+   "TLC checks Placement, UnionAxes, RowPairing and emits the expected coordinates/attributes; every behaviour is replayed through one public entry point and ds.sel at every grid point, dims, coords, attrs and every DataFrame row are compared; the pinned code's row mis-pairing (F2) is reproduced as a TLC counterexample of the 'shuffled' labelling variant on every run.",
+   "1-d internal dimensions only; row order of DataFrames is not demanded."),
+ "C16": ("Cluster.tla", "DESIGN.md §7",
+   "TLA+ model of script generation and task execution (Gen, RunTask in any order, RunSingle, CliGrow) checked by TLC; each emitted case generates the real script, which is syntax-checked and executed with bash per array index",
+   "TLC checks GrownExact / TasksOnce / RangeExact / ReadyAfter over schedulers x modes x crop states x explicit ids x task orders; for each emitted case the real gen_cluster_script output is checked with bash -n, its header range parsed, its embedded program compiled, and a selection is executed with bash once per array index in TLC's order; grown batches are counted from the function's call log and the crop state and reap compared with the model.",
+   "No real scheduler; tasks of one array run sequentially; header lines other than the array range are not validated."),
+ "C17": ("PlotClassic.tla", "DESIGN.md §8.1",
+   "TLA+ machine of the classic drawing loop (panels, series, masks, colours) checked by TLC incl. nine rejected wrong variants; each emitted configuration is plotted with the real functions and the matplotlib artists are read back",
+   "TLC enumerates NaN/inf masks x plot kinds x options and emits the expected drawn series (points, labels, panel, colour as a rational); the real lineplot/scatter/histogram/heatmap (and auto_* / accessor) output is read back from Line2D/PathCollection/QuadMesh/patch artists and compared; the input Dataset is deep-compared before/after.",
+   "Pixel output is not examined; colours compared to 1e-6; colour limits under +-inf data are noted only; bokeh backend not installed."),
+ "C19": ("RunStats.tla", "DESIGN.md §8.3",
+   "exact integer TLA+ model of the Welford / co-moment updates and of the estimate_from_repeats loop checked by TLC; emitted sequences replayed into the real classes under affine maps with calibrated tolerances",
+   "TLC proves (bounded) that the update recurrences equal whole-sample statistics for every order and chunking and that the stopping machine stops only when converged or at the limit; every emitted sequence/parameter set is replayed into RunningStatistics/RunningCovariance/RunningCovarianceMatrix/estimate_from_repeats (well- and ill-conditioned maps) and compared with the model's exact rationals; a naive sum-of-squares accumulator is shown to be rejected on every run.",
+   "Floating-point accuracy is a tolerance check (4 n eps max|x| for means, 8(n eps AD + eps|cov|) for second moments); exact ties skipped."),
+})
 NOT_YET = {}
 
 def main():
